@@ -980,23 +980,32 @@ V(id='c38-library-imports-mp', prop='C38', file='mpmath/functions/zeta.py',
   expect='fire:X-R5')
 V(id='c38-coef-no-restore', prop='C38', file='mpmath/functions/rszeta.py',
   old="""    orig = ctx._mp.prec
+    trap = ctx._mp.trap_complex
     try:
+        ctx._mp.trap_complex = False
         data = _coef(ctx._mp, J, eps)
     finally:
-        ctx._mp.prec = orig""",
+        ctx._mp.prec = orig
+        ctx._mp.trap_complex = trap""",
   new="""    data = _coef(ctx._mp, J, eps)""",
   expect='fire:X-R6:coef')
 V(id='c38-coef-restores-own-ctx', prop='C38', file='mpmath/functions/rszeta.py',
   old="""    orig = ctx._mp.prec
+    trap = ctx._mp.trap_complex
     try:
+        ctx._mp.trap_complex = False
         data = _coef(ctx._mp, J, eps)
     finally:
-        ctx._mp.prec = orig""",
+        ctx._mp.prec = orig
+        ctx._mp.trap_complex = trap""",
   new="""    orig = ctx.prec
+    trap = ctx._mp.trap_complex
     try:
+        ctx._mp.trap_complex = False
         data = _coef(ctx._mp, J, eps)
     finally:
-        ctx.prec = orig""",
+        ctx.prec = orig
+        ctx._mp.trap_complex = trap""",
   expect='fire:X-R6:coef')
 V(id='c38-fp-setter-writes-mp', prop='C38', file='mpmath/ctx_fp.py',
   old="    def _set_prec(ctx, p): return", new="    def _set_prec(ctx, p): ctx._mp.prec = p",
@@ -1006,15 +1015,21 @@ V(id='c38-benign-clone-copies-pretty', prop='C38', file='mpmath/ctx_mp.py',
   expect='silent')
 V(id='c38-benign-coef-rename-snapshot', prop='C38', file='mpmath/functions/rszeta.py',
   old="""    orig = ctx._mp.prec
+    trap = ctx._mp.trap_complex
     try:
+        ctx._mp.trap_complex = False
         data = _coef(ctx._mp, J, eps)
     finally:
-        ctx._mp.prec = orig""",
+        ctx._mp.prec = orig
+        ctx._mp.trap_complex = trap""",
   new="""    saved_prec = ctx._mp.prec
+    saved_trap = ctx._mp.trap_complex
     try:
+        ctx._mp.trap_complex = False
         data = _coef(ctx._mp, J, eps)
     finally:
-        ctx._mp.prec = saved_prec""",
+        ctx._mp.prec = saved_prec
+        ctx._mp.trap_complex = saved_trap""",
   expect='silent')
 V(id='c38-benign-new-instance-cache', prop='C38', file='mpmath/functions/functions.py',
   old="        self._misc_const_cache = {}\n", new="        self._misc_const_cache = {}\n        self._extra_cache = dict()\n",
@@ -2551,3 +2566,26 @@ V(id='c14-convert-no-rationals', prop='C14', file='mpmath/ctx_iv.py',
 V(id='c14-convert-rational-undirected', prop='C14', file='mpmath/ctx_iv.py',
   old="        return from_rational(x.numerator, x.denominator, prec, rounding)\n", new="        return from_rational(x.numerator, x.denominator, prec)\n",
   expect='fire:C-R6:convert_mpf_')
+
+# ---- C38 second hunt: X-R3c, X-R10, X-R11 (fixes 12b81df, 0304f79) ----
+V(id='c38-rs-lazy-pi-in-borrowed-data', prop='C38', file='mpmath/functions/rszeta.py',
+  old="    pipower[1] = +ctx.pi\n", new="    pipower[1] = ctx.pi\n",
+  expect='fire:X-R10:_coef')
+V(id='c38-rs-returns-lazy-constant', prop='C38', file='mpmath/functions/rszeta.py',
+  old="    return [newJ, neweps6, c, pipower]\n", new="    return [newJ, neweps6, c, pipower, ctx.euler]\n",
+  expect='fire:X-R10:_coef')
+V(id='c38-rs-borrowed-trap-complex', prop='C38', file='mpmath/functions/rszeta.py',
+  old="        ctx._mp.trap_complex = False\n        data = _coef(ctx._mp, J, eps)\n", new="        data = _coef(ctx._mp, J, eps)\n",
+  expect='fire:X-R11:coef')
+V(id='c38-rs-trap-complex-not-restored', prop='C38', file='mpmath/functions/rszeta.py',
+  old="        ctx._mp.prec = orig\n        ctx._mp.trap_complex = trap\n", new="        ctx._mp.prec = orig\n",
+  expect='fire:X-R11:coef')
+V(id='c38-clone-forgets-trap-complex', prop='C38', file='mpmath/ctx_mp.py',
+  old="        a.trap_complex = ctx.trap_complex\n", new="",
+  expect='fire:X-R3c:clone')
+V(id='c38-clone-forgets-pretty', prop='C38', file='mpmath/ctx_mp.py',
+  old="        a.pretty = ctx.pretty\n", new="",
+  expect='fire:X-R3c:clone')
+V(id='c38-benign-rs-pi-evaluated-by-product', prop='C38', file='mpmath/functions/rszeta.py',
+  old="    pipower[1] = +ctx.pi\n", new="    pipower[1] = ctx.pi*ctx.one\n",
+  expect='silent')
